@@ -325,3 +325,28 @@ def _chk_breaks(args, res, old):
 
 contract("cnvlib/reports.py::do_breaks", params=dict(arr=ObjT("CopyNumArray")), bounded=True, gen=_gen_breaks,
          call=_call_breaks, props=("C16",), checks=[("genes_split_by_a_segment_boundary", _chk_breaks)])
+
+
+# ---------------------------------------------------------------- deductive: the gene/segment mean itself
+from .c_call import CHROM, GENE   # noqa
+
+_WBINS = ObjT("CopyNumArray", data=TabT(opt=("weight",), index="masked", chromosome=CHROM, start=Int, end=Int, gene=GENE, log2=Real,
+                                       weight=Real), meta=DictT())
+
+contract(
+    "cnvlib/segmetrics.py::segment_mean",
+    params=dict(cnarr=_WBINS, skip_low=Lit(False)),
+    returns=NReal,
+    requires=["'weight' not in cnarr.data or forall(0, len(cnarr.data), lambda k: cnarr.data.weight[k] >= 0)"],
+    ensures=[
+        ("nan_when_empty", "isnull(result) == (len(cnarr.data) == 0)"),
+        # weighted average of the bins' log2 when any bin has weight, else their plain mean
+        ("weighted_mean", "implies(len(cnarr.data) > 0, val(result) == ite("
+                          "'weight' in cnarr.data and exists(0, len(cnarr.data), lambda k: cnarr.data.weight[k] != 0), "
+                          "sumof(Vec(len(cnarr.data), lambda k: cnarr.data.log2[k] * cnarr.data.weight[k])) / sumof(cnarr.data.weight), "
+                          "sumof(cnarr.data.log2) / len(cnarr.data)))"),
+    ],
+    props=("C16",), domain="skip",
+    canaries=[("any_to_all", 'cnarr["weight"].any()', 'cnarr["weight"].all()'),
+              ("unweighted", 'np.average(cnarr["log2"], weights=cnarr["weight"])', 'np.average(cnarr["log2"])')],
+)
